@@ -115,6 +115,50 @@ def mixcase(rng, s, mode):
 NONASCII = ["é", "٣", "１", "Ａ", "😀", " ", "²", "ⅷ"]
 
 
+def words_of(n):
+    return (n.bit_length() + W - 1) // W
+
+
+def gen_tower(rng, tier, rs):
+    maxbits = 40000 if tier == "quick" else 140000
+    for r in rs:
+        if r in POW2:
+            continue
+        d = dpw(r)
+        power = (r ** d) ** 16                       # radix_powers[0]
+        level = 0
+        while 2 * power.bit_length() <= maxbits:
+            L = words_of(power)
+            sq = power * power
+            vals = set()
+            for wc in (2 * L - 2, 2 * L - 1, 2 * L):
+                if wc < 3:
+                    continue
+                vals.add((1 << (W * wc)) - 1)                 # largest value with wc words
+                vals.add(1 << (W * (wc - 1)))                 # smallest value with wc words
+                vals.add((1 << (W * (wc - 1))) | rng.getrandbits(W * (wc - 1)))
+            # just below / at / above the squared power and the neighbouring powers of the radix
+            k = d * 16 * (2 ** level) * 2                     # sq = r^k
+            for v in (sq - 1, sq, sq + 1, r ** (k - 1) - 1, r ** (k - 1) + 1, r ** (k + 1) - 1, r ** (k + 1) + 1,
+                      power - 1, power, power + 1, sq * (r ** d) - 1, sq // 2, sq + rng.getrandbits(64)):
+                vals.add(v)
+            # bit lengths around the word-count boundary 64*(2L-1)
+            step = 16 if r in (10, 36) else 64
+            for bits in range(W * (2 * L - 1) - 128, W * (2 * L - 1) + 65, step):
+                if bits > 8:
+                    vals.add((1 << bits) - 1)
+                    if r in (10, 36) or tier == "thorough":
+                        vals.add(1 << (bits - 1))
+                        vals.add((1 << (bits - 1)) | rng.getrandbits(bits - 1))
+            for v in sorted(vals):
+                if v >= 0:
+                    op = "u.fmt" if rng.random() < 0.7 else "i.fmt"
+                    z = v if op == "u.fmt" or rng.random() < 0.5 else -v
+                    yield Case(op, ["r%d" % r, 0, "-", "none", hx(z)], nontrivial=True)
+            power = sq
+            level += 1
+
+
 def gen_fmt(rng, tier):
     rs = radices(rng, tier)
     # 1. size classes x radices, default spec (digits vs the reference digits)
@@ -180,7 +224,12 @@ def gen_fmt(rng, tier):
         if r in (2, 8, 10, 16) and rng.random() < 0.5:
             t = {2: "b", 8: "o", 10: "d", 16: rng.choice("xX")}[r]
         yield Case("i.fmt" if neg else "u.fmt", [t, rng.randrange(10), fl, ws, hx(-n if neg else n)], nontrivial=True)
-    # 5. invalid radix
+    # 5. the radix-power tower of PreparedLarge::new: powers r^(dpw*16*2^i) computed as the code does; the squaring loop
+    #    stops by comparing word counts (2*len(prev) - 1 > len(number)), so numbers whose word count is 2L-2, 2L-1, 2L for
+    #    the length L of every tower level, just below/above the squared power, decide how many levels are built
+    for case in gen_tower(rng, tier, rs):
+        yield case
+    # 6. invalid radix
     for r in [0, 1, 37, 100]:
         yield Case("u.fmt", ["r%d" % r, 0, "-", "none", "5"], nontrivial=False)
         yield Case("i.rt", ["-5", dec(r)], nontrivial=False)
@@ -375,6 +424,9 @@ def nontrivial(c):
 RULE = ("fmt: for each radix (quick: 2,8,10,16,36 + 5 drawn by rng; thorough: all 35) numbers with exactly L digits for L around "
         "digits_per_word, 2x, 16x (medium/large printer switch), 32x, 256x, (thorough: 512x, 1024x) digits_per_word in the patterns "
         "all-max-digit (z..z), 10..0, 10..01, sparse, random, both signs; word-boundary values (2^64, 2^128, range_per_word^k +-1); the "
+        "radix-power tower of the large printer: for every level (power r^(dpw*16*2^i) of L words, up to 40k / 140k bits) numbers of "
+        "2L-2, 2L-1, 2L words (min, max, random), the squared power and neighbouring radix powers +-1, and bit lengths "
+        "64(2L-1)-128..+64 (step 16 for radix 10 and 36); the "
         "full flag product {+,#,0} x 10 fill/align specs x widths {none, len-1, len, len+1, len+k, far} x {Display,b,o,x,X} on values "
         "< 2^128 (harness additionally compares with Rust's primitive formatting), and on in_radix for other radices / heap values. "
         "parse: texts of numbers with the same digit lengths (parse thresholds digits_per_word, 256x, 512x) with random letter case, "
